@@ -49,6 +49,7 @@ type algoSUT struct {
 	vegas     *limit.VegasLimit
 	grad      *limit.GradientLimit
 	grad2     *limit.Gradient2Limit
+	settable  *limit.SettableLimit
 	notes     map[int][]int // listener id -> values delivered during the current operation
 	nl        int
 	smoothing float64
@@ -131,6 +132,16 @@ func newAlgoSUT(r *rng, algo, wrap string) *algoSUT {
 			panic(err)
 		}
 		s.grad2, s.inner = g, g
+	case "settable":
+		c.Initial = r.between(0, 60)
+		c.Floor = -(1 << 20) // only an explicit set moves it, to whatever it is told
+		st := limit.NewSettableLimit(c.Name, c.Initial, s.reg)
+		s.settable, s.inner = st, st
+	case "fixed":
+		c.Initial = r.between(0, 60)
+		c.Floor = c.Initial
+		c.Ceil = c.Initial
+		s.inner = limit.NewFixedLimit(c.Name, c.Initial, s.reg)
 	}
 	c.Smooth = fmt.Sprint(s.smoothing)
 	s.outer = s.inner
@@ -919,4 +930,93 @@ func TestBoundsGrid(t *testing.T) {
 		}
 	}
 	writeJSON(t, filepath.Join(outDir(t), "grid.json"), J{"grid_points": k})
+}
+
+// set performs an explicit SetLimit on the settable limit behind the outer object and returns the observation record.
+func (s *algoSUT) set(v int) J {
+	for k := range s.notes {
+		delete(s.notes, k)
+	}
+	s.reg.takeSamples()
+	s.settable.SetLimit(v)
+	notes := J{}
+	for id, vs := range s.notes {
+		notes[fmt.Sprint(id)] = append([]int{}, vs...)
+	}
+	return J{"est": s.outer.EstimatedLimit(), "class": "ok", "panic": false, "notes": notes}
+}
+
+// TestSettableRandom records sample / set / registration sequences of the two limits that no sample moves - the
+// settable limit (explicit sets) and the fixed limit - bare and behind the traced and windowed wrappers, and, in real
+// time, two explicit sets overtaking each other (C16: for all limit implementations, all sample / set sequences).
+func TestSettableRandom(t *testing.T) {
+	n := envInt("VERIF_N", 60)
+	w := newNdWriter(t, filepath.Join(outDir(t), "settable_trace.ndjson"))
+	defer w.close()
+	wraps := []string{"none", "traced", "windowed"}
+	sets := 0
+	for k := 0; k < n; k++ {
+		r := newRng(seed(), uint64(70000+k))
+		algo := []string{"settable", "settable", "fixed"}[k%3]
+		s := newAlgoSUT(r, algo, wraps[(k/3)%3])
+		nl := r.intn(3)
+		for i := 0; i < nl; i++ {
+			s.register()
+		}
+		w.write(J{"ev": "Reset", "trace": k, "cfg": s.cfg, "obs": J{"est": s.outer.EstimatedLimit(), "listeners": nl}})
+		clock := int64(1e9)
+		for i := 1; i <= r.between(20, 80); i++ {
+			switch {
+			case r.chance(1, 10) && s.nl < 3:
+				s.register()
+				w.write(J{"ev": "Register", "trace": k, "i": i, "listeners": s.nl})
+			case s.settable != nil && r.chance(1, 3):
+				v := r.between(0, 90)
+				if r.chance(1, 5) {
+					v = s.outer.EstimatedLimit() // a set to the current value
+				}
+				sets++
+				w.write(J{"ev": "Set", "trace": k, "i": i, "v": v, "obs": s.set(v)})
+			default:
+				rtt, infl, drop := pickRTT(r, 1000), r.between(0, 40), r.chance(1, 6)
+				if rtt > 1<<40 {
+					rtt = 3000
+				}
+				o := s.sample(clock, rtt, infl, drop)
+				clock += 150e6
+				w.write(J{"ev": "Sample", "trace": k, "i": i, "in": J{"rtt": chunks(rtt), "rttf": chunks(int64(float64(rtt))), "inflight": infl, "drop": drop, "mode": "free", "zero": rtt == 0}, "obs": o})
+			}
+		}
+	}
+	// explicit sets issued at once by free-running goroutines (one each, behind a start barrier): whatever order they take
+	// effect in, once all have returned the last value delivered to the listener is the estimate. (Holding one set inside
+	// a listener and issuing two more never reorders them - the mutex hands over in arrival order - so this is a sample of
+	// the scheduler's interleavings, a few tens of thousands of them.)
+	races, mismatches := 0, 0
+	for rep := 0; rep < envInt("VERIF_RACES", 20000); rep++ {
+		st := limit.NewSettableLimit("race", 1, core.EmptyMetricRegistryInstance)
+		last := -1
+		st.NotifyOnChange(func(v int) { last = v }) // runs under the limit's own mutex
+		var wg sync.WaitGroup
+		start := make(chan struct{})
+		g := 4 + rep%13
+		for x := 0; x < g; x++ {
+			wg.Add(1)
+			go func(v int) {
+				defer wg.Done()
+				<-start
+				st.SetLimit(v)
+			}(x*100 + 2)
+		}
+		close(start)
+		wg.Wait()
+		races++
+		if last != st.EstimatedLimit() {
+			mismatches++
+		}
+		if last != st.EstimatedLimit() || rep%500 == 0 { // every mismatch and a sample of the rest go to the contract
+			w.write(J{"ev": "Concurrent", "trace": n + rep, "i": 0, "algo": "settable", "last": last, "est": st.EstimatedLimit(), "delivered": []int{last}})
+		}
+	}
+	writeJSON(t, filepath.Join(outDir(t), "settable.json"), J{"sequences": n, "sets": sets, "set_races": races, "last_delivered_differs_from_estimate": mismatches})
 }
